@@ -475,4 +475,42 @@ class RebuildRoot(Contract):
                 ctx.oblige(f"top-level-group-{i}-is-loaded-once", direct.count(u) == 1)
 
 
-CONTRACTS = CONTRACTS + [RebuildRoot]
+class LoadStoredRoot(Contract):
+    """fetch_or_create_root with a Root link: the loaded root and its type are marked as stored (every
+    later assignment on them is then routed to the file, and refused on a read-only handle), and the
+    tree below the root is loaded."""
+    target = "geoh5py/workspace/workspace.py::Workspace.fetch_or_create_root"
+    variant = "root-link-present"
+    props = ("C10", "C19", "C01")
+    lenient = True
+
+    def setup(self, ctx):
+        from geoh5py.groups import RootGroup
+        from geoh5py.workspace import Workspace
+
+        me = Opaque("self", cls=Workspace)
+        root = Opaque("root", cls=RootGroup)
+        rtype = Opaque("root-type")
+        rtype.attrs["on_file"] = False
+        root.attrs["on_file"] = False
+        root.attrs["entity_type"] = rtype
+        le = Opaque("load_entity")
+        le.maybe_method = lambda I, a, kw: root
+        me.attrs["load_entity"] = le
+        fc = Opaque("fetch_children")
+        fc.maybe_method = lambda I, a, kw: I.event("fetch-children", entity=a[0], recursively=kw.get("recursively", a[1] if len(a) > 1 else False))
+        me.attrs["fetch_children"] = fc
+        ctx.env.update(me=me, root=root, rtype=rtype)
+        return [me], {}
+
+    def post(self, ctx, result):
+        e = ctx.env
+        ctx.oblige("the-stored-root-becomes-the-workspace-root", e["me"].attrs.get("_root") is e["root"])
+        ctx.oblige("the-root-is-marked-as-stored", e["root"].attrs.get("_on_file", e["root"].attrs.get("on_file")) is True)
+        ctx.oblige("the-roots-type-is-marked-as-stored", e["rtype"].attrs.get("on_file") is True,
+                   note="assignments on the root's type would bypass the file (and the read-only guard)")
+        fc = [p for k, p in ctx.path.events if k == "fetch-children"]
+        ctx.oblige("the-tree-below-the-root-is-loaded", len(fc) == 1 and fc[0]["entity"] is e["root"] and fc[0]["recursively"] is True)
+
+
+CONTRACTS = CONTRACTS + [RebuildRoot, LoadStoredRoot]
